@@ -182,6 +182,10 @@ def buffer_kernel(ctx, r):
     ffr = ctx.facts(hfr)
     exc = [n for n in cfr.nodes if n.kind == "except" and "ConsumerFetchSizeTooSmall" in norm(n.stmt.type)]
     need(exc, "too-small handler missing")
+    r.check(all(norm(n.stmt.type) == "ConsumerFetchSizeTooSmall" for n in exc), "%s#grows-only-on-too-small" % hfr.qname,
+            "the buffer-growth arm also handles %s" % [norm(n.stmt.type) for n in exc], where(hfr, exc[0].stmt),
+            "a small message with a bad checksum grows the buffer with immediate refetches and no back-off; with max_buffer_size set "
+            "start() fails with fetch-size-too-small although the maximum is ample")
     arm = [cfr.nodes[i] for i in cfr.reach([exc[0].id])]
     mul = [n for n in arm if n.kind == "stmt" and isinstance(n.stmt, ast.AugAssign) and isinstance(n.stmt.op, ast.Mult) and node_writes_attr(n, "buffer_size")]
     need(mul and isinstance(mul[0].stmt.value, ast.Name), "buffer growth `size *= <factor>` not found")
